@@ -560,6 +560,12 @@ pub fn run(ctx: &Ctx) {
     let xdg = vcore::util::Scratch::new("c24-xdg");
     // SAFETY: no other thread exists yet
     unsafe { std::env::set_var("XDG_CACHE_HOME", &xdg.path) };
+    // expand the standard library once, before any worker thread may race on it
+    // (concurrent expansion is C30's subject, not this property's)
+    if let Err(e) = veryl_std::expand() {
+        println!("INCONCLUSIVE property={}: cannot expand the standard library: {e}", ctx.id);
+        std::process::exit(2);
+    }
     let mut na = ctx.scale(320, 5000);
     let mut nb = ctx.scale(110, 2500);
     if let Some(k) = std::env::var("VERIF_C24_CASES").ok().and_then(|x| x.parse::<usize>().ok()) {
